@@ -9,6 +9,20 @@ import (
 // closed facts, assembly obligations, call-graph obligations).
 func (cr *checkRun) extraChecks(verif string) {
 	cr.evalLemmaChecks()
+	writers := []string{"io/ioutil.WriteFile", "os.WriteFile", "os.Create", "os.OpenFile", "os.Remove", "os.Rename", "os.Mkdir", "os.Truncate", "os.Chmod", "os.Symlink", "os.Link", "(*os.File).Write"}
+	switch cr.prop {
+	case "C02", "C14":
+		// Verify modifies nothing: no write primitive and no fileIO.WriteFile is reachable from verify
+		cr.callGraphCheck("no-write", []string{"github.com/akalin/gopar/par2::verify", "github.com/akalin/gopar/par1::verify"}, writers, []string{"WriteFile"}, nil)
+		// Create writes only through Encoder.Write; Repair only through Decoder.Repair
+		cr.callGraphCheck("writes-only-in-Encoder.Write", []string{"github.com/akalin/gopar/par2::create", "github.com/akalin/gopar/par1::create"}, writers, []string{"WriteFile"}, []string{"Encoder).Write"})
+		// the real filesystem adapters are single calls of the ioutil primitives
+		cr.onlyExternal("is-ioutil.WriteFile", "github.com/akalin/gopar/par2::(defaultFileIO).WriteFile", []string{"io/ioutil.WriteFile"})
+		cr.onlyExternal("is-ioutil.WriteFile", "github.com/akalin/gopar/par1::(defaultFileIO).WriteFile", []string{"io/ioutil.WriteFile"})
+		cr.onlyExternal("is-ioutil.ReadFile", "github.com/akalin/gopar/par2::(defaultFileIO).ReadFile", []string{"io/ioutil.ReadFile"})
+		cr.onlyExternal("is-ioutil.ReadFile", "github.com/akalin/gopar/par1::(defaultFileIO).ReadFile", []string{"io/ioutil.ReadFile"})
+		cr.callGraphCheck("writes-only-in-Decoder.Repair", []string{"github.com/akalin/gopar/par2::repair", "github.com/akalin/gopar/par1::repair"}, writers, []string{"WriteFile"}, []string{"Decoder).Repair"})
+	}
 }
 
 // evalLemmaChecks decides `kind eval` / `kind exhaust` lemmas by running the
